@@ -325,6 +325,21 @@ class FnTr:
                     raise TranslationError("Some(%s)" % p[1])
                 return ("(Some %s)" % self.fixlit(p[0], p[1], "u8"), oty, p[2])
             return None
+        if k == "macro" and e[1] == "matches":
+            # matches!(expr, pattern): the boolean the pattern's test is (no bindings, no guard)
+            sub = rsparse.RParser(list(e[2]), self.g.macros)
+            scrut = sub.parse_expr()
+            sub.eat(",")
+            pat = sub.parse_pattern()
+            if not sub.done():
+                raise TranslationError("matches! with a guard")
+            ps = self.pure(scrut)
+            if ps is None or ps[1] not in ("u8", "usize", "int"):
+                raise TranslationError("matches! scrutinee")
+            t, b = self.pat_test(pat, ps[0], ps[1])
+            if b:
+                raise TranslationError("matches! with bindings")
+            return (t if t is not None else "true", "bool", ps[2])
         if k == "macro" and e[1] == "cfg":
             if norm(e[2]) == "debug_assertions":
                 return ("dbg", "bool", [])
@@ -959,6 +974,20 @@ class FnTr:
 
     def ev_match(self, e, k):
         scrut, arms = e[1], e[2]
+        # consecutive arms with the same guard and the same body are one arm with an or-pattern (so splitting
+        # `A | B => body` into two arms, or merging two, generates the same text)
+        merged = []
+        for pat, guard, body in arms:
+            if merged and merged[-1][1] == guard and merged[-1][2] == body and pat[0] not in ("pbind",) \
+                    and merged[-1][0][0] not in ("pbind",) and "pbind" not in repr(pat) and "pbind" not in repr(merged[-1][0]):
+                p0 = merged[-1][0]
+                alts = (list(p0[1]) if p0[0] == "por" else [p0]) + (list(pat[1]) if pat[0] == "por" else [pat])
+                merged[-1] = (("por", alts), guard, body)
+            else:
+                merged.append((pat, guard, body))
+        if merged != list(arms):
+            arms = merged
+            e = (e[0], scrut, arms) + tuple(e[3:])
         special = self.g.special_match(self, e, k)
         if special is not None:
             return special
